@@ -152,6 +152,9 @@ def run(ctx):
             tags = []
             ctx.violation({'history': h}, 'render event %d (%s) rejected: %s; history %s' % (
                 k, ev['key'], verd[i + 1][1], [(s['op'], s.get('kind'), s.get('slot', s.get('via')), s.get('content')) for s in h]), tags)
+    # growth item: doc string parsing behind the help text (DRIFT only, see drivers/hdocstr.py)
+    from drivers import hdocstr
+    hdocstr.run(ctx)
     ctx.traces = len(hists)
     ctx.exhaustive = False
     ctx.extra['histories_exhaustive'] = n_exh
